@@ -321,6 +321,25 @@ def literal_section(ctx, hist):
               ('xsd_double', '1E6144'), ('xsd_double', '1E6145'), ('parse', '12345678901234567890123456789012345E-1'), ('xsd_double', '-0'), ('xsd_integer', '-000')]
     ximpl = ctx.run_impl('num', [{'op': op, 'a': t} for op, t in texts])
     xraw = ctx.run_impl('num', [{'op': 'sci', 'a': t} for _, t in texts])
+    # the same valid texts again, in ONE process and one thread, each behind a text that is refused: reading a number must not depend on what was
+    # read before (seeded change C07_e: a conversion status kept between calls made every text after a refused one "not a number")
+    bads = ['12,5', 'abc', '', '1e', '--1', '1.2.3', ' 1', '1 ', '+', '.', 'NaN', 'Infinity', '1' + '0' * 6145, '0x10', '1_000']
+    firstv = [i for i, x in enumerate(ximpl) if isinstance(x.get('r'), dict)][:ctx.pick(120, 600)]
+    seq = []
+    for k, i in enumerate(firstv):
+        seq.append({'op': r.choice(['parse', 'xsd_decimal', 'xsd_double']), 'a': bads[k % len(bads)]})
+        seq.append({'op': texts[i][0], 'a': texts[i][1]})
+    again = ctx.run_impl('num', seq, shards=1)
+    for k, i in enumerate(firstv):
+        ctx.evaluations += 1
+        b, v = again[2 * k], again[2 * k + 1]
+        if isinstance(b.get('r'), dict) and bads[k % len(bads)] not in ('NaN', 'Infinity'):
+            pass            # whether a malformed text is refused is the subject of the cases above; here only the valid text that follows counts
+        if v.get('r') != ximpl[i].get('r'):
+            ctx.violation('%s("%s") is answered %s when it is read right after the refused text %r, and %s otherwise: reading a number depends on what was read before'
+                          % (texts[i][0], texts[i][1][:60], json.dumps(v)[:120], bads[k % len(bads)][:20], json.dumps(ximpl[i].get('r'))[:120]),
+                          {'sequence': seq[2 * k:2 * k + 2]}, impl=v)
+            break
     small = [i for i, (_, t) in enumerate(texts) if len(t.split('E')[0].split('e')[0].replace('.', '').lstrip('+-0')) <= 400 and abs(int(re.split('[eE]', t)[1]) if re.search('[eE]', t) else 0) <= 7000]
     mres = ctx.run_model(HEADER_LIT, ['from_text_sci "%s"' % texts[i][1] for i in small], shard_size=max(20, len(small) // 16 + 1), tag='txt')
     model = dict(zip(small, mres))
